@@ -738,6 +738,9 @@ class Gen:
             return out[:2] + r.sample(out[2:], len(out) - 2)
         if isinstance(c, list) and len(c) == 2 and c[0] in ("bytes", "bytearray"):
             raw = bytearray(bytes.fromhex(c[1]))
+            # the same contents in another bytes-like type (a memo that normalises its
+            # key with bytes(...) answers what the function itself would refuse)
+            out.append(["memoryview", c[1]])
             if len(raw) in (48, 96):
                 f = bytearray(raw)
                 f[0] ^= 0x20                     # sign flag: the negated point
